@@ -7,6 +7,7 @@ import Mathlib.Tactic.Linarith
 import Mathlib.Tactic.Ring
 import Mathlib.Tactic.SplitIfs
 import RQ.Lemmas.WorldA
+import RQ.Lemmas.WorldM
 
 deriving instance DecidableEq for RQ.Q.MOutcome
 
@@ -421,5 +422,32 @@ theorem world_no_trade_zero_volume (w : World) (ins : List WIn) (id : Nat) (q : 
   intro hil hv
   exact no_fill_zero_volume (ws.mcfg wi) hil wi.cfg o (if auction then d.auc else d.bar) auction tv cash (fun _ _ => fee) (fun _ => ct) hv
     q p ct cr hm
+
+
+/-- **C06.3 for whole daily back-tests of the composed system**: with volume_limit on and positive lots, from an empty accumulator, any number of
+days in the executor's order, any market whose auction bar carries the day's volume (how the daily data source builds it), any calls in the
+two callbacks: after EVERY prefix of the run the quantity filled on every instrument since the accumulator was last cleared — everything that
+filled in today's auction, resp. today's bar, whoever sent it — is within `round(volume × volume_percent)` of the volume in force -/
+theorem world_turnover_within_cap (w : World) (days : List RQ.Lemmas.WorldF.Day) (hc : ∀ d ∈ days, d.CallsOnly)
+    (hcfg : RQ.Lemmas.WorldM.CfgOk w) (hd : w.cfg.daily = true) (ht : w.turnover = [])
+    (hvol : ∀ d ∈ days, ∀ r ∈ d.mkt, r.auc.volume = r.bar.volume)
+    (pre post : List WIn) (hsplit : days.flatMap RQ.Lemmas.WorldF.Day.inputs = pre ++ post) :
+    RQ.Lemmas.WorldM.TurnoverOk (w.run pre).1 :=
+  RQ.Lemmas.WorldM.days_turnover_within_cap_partial w days hc hcfg hd ht hvol pre post hsplit
+
+/-- … and without the assumption on the data under immediate matching (the auction book is drained by every submission) -/
+theorem world_turnover_within_cap_immediate (w : World) (days : List RQ.Lemmas.WorldF.Day) (hc : ∀ d ∈ days, d.CallsOnly)
+    (hcfg : RQ.Lemmas.WorldM.CfgOk w) (hd : w.cfg.daily = true) (ht : w.turnover = [])
+    (himm : w.cfg.matchImmediately = true) (hbook : w.auctionOrders = [])
+    (pre post : List WIn) (hsplit : days.flatMap RQ.Lemmas.WorldF.Day.inputs = pre ++ post) :
+    RQ.Lemmas.WorldM.TurnoverOk (w.run pre).1 :=
+  RQ.Lemmas.WorldM.days_turnover_within_cap_matchImmediately w days hc hcfg hd ht himm hbook pre post hsplit
+
+/-- the statement without either assumption is false (kernel-checked): an order resting in the auction book under non-immediate matching fills at
+the bar event up to the cap of the AUCTION volume and is counted against the bar's -/
+theorem world_turnover_cap_needs_an_assumption :
+    ¬ (∀ (w : World) (days : List RQ.Lemmas.WorldF.Day), (∀ d ∈ days, d.CallsOnly) → RQ.Lemmas.WorldM.CfgOk w → w.cfg.daily = true → w.turnover = [] →
+        ∀ (pre post : List WIn), days.flatMap RQ.Lemmas.WorldF.Day.inputs = pre ++ post → RQ.Lemmas.WorldM.TurnoverOk (w.run pre).1) :=
+  RQ.Lemmas.WorldM.days_turnover_within_cap_counterexample
 
 end RQ.Props.C06
